@@ -154,11 +154,9 @@ def replay_record(ctx, table, rec):
 TRACE_EVS = {"init", "rec", "flush", "autoflush", "rotate", "clear", "conf", "restart", "search"}
 
 
-def run_history(ctx, hist, nrec, seed=None, mem=None):
+def run_history(ctx, hist, nrec, mem=None):
     tout = ctx.path("c07_trace_%d.ndjson" % hist)
     env = {"VERIF_OUT": tout, "VERIF_C07_HIST": str(hist), "VERIF_C07_RECORDS": str(nrec)}
-    if seed is not None:
-        env["VERIF_C07_SEED"] = str(seed)
     if mem is not None:
         env["VERIF_C07_MEM"] = str(mem)
     rc, out = ctx.go_test(PKG, FILES, "^TestZZVerifC07Trace$", env=env, timeout=600)
@@ -358,7 +356,7 @@ def _run_bindings(ctx):
                 "handler (reply compared with the spec's table row); non-trivial = an edge group whose destination differs "
                 "from its source.  direction B: one evaluation per trace line validated by TraceQueryLog.tla",
         "edge_groups": summ["groups"], "edge_groups_covered": summ["covered"], "edges_by_action": by_act,
-        "states": len(rows), "states_with_observation_table": nstates_obs,
+        "graph_states": len(rows), "states_with_observation_table": nstates_obs,
         "walks": summ["walks"], "steps": summ["steps"], "transit_steps": summ["transit"],
         "steps_state_unobservable": summ["unobservable"],
         "requests_compared": summ["queries"], "walks_discarded": summ["discards"], "flaky": summ["flaky"] + tflaky,
